@@ -254,7 +254,14 @@ def tm1(ctx, R):
     prog = ctx.prog
     n = 0
     seen = set()
-    is_flag = lambda x: isinstance(x, tuple) and len(x) == 3 and x[0] == "sub" and x[1] in (("global", "toc_properties"), ("name", "toc_properties"))
+    try:
+        _tab = prog.try_fold(prog.module("common").assigns.get("toc_properties"), prog.module("common"), default=None)
+    except Exception:
+        _tab = None
+    flagvals = {v for v in _tab.values() if isinstance(v, int) and v > 1} if isinstance(_tab, dict) else set()
+    # an entry of toc_properties, looked up or through a named constant that folds to one of its values
+    is_flag = lambda x: isinstance(x, tuple) and ((len(x) == 3 and x[0] == "sub" and x[1] in (("global", "toc_properties"), ("name", "toc_properties"))) or
+                                                  (len(x) == 2 and x[0] == "const" and isinstance(x[1], int) and not isinstance(x[1], bool) and x[1] in flagvals))
     for fi in sorted(prog.functions.values(), key=lambda f: f.qual):
         if fi.module.name == "writer":
             continue
@@ -290,6 +297,8 @@ def tm1(ctx, R):
                 seen.add(k)
                 n += 1
                 key = "%s::toc mask unpack" % fi.qual
+                if fmt[0] == "binop" and fmt[1] == "+" and all(isinstance(t, tuple) and t[0] == "const" and isinstance(t[1], str) for t in fmt[2]):
+                    fmt = ("const", "".join(t[1] for t in fmt[2]))          # named byte-order constant + type code
                 if fmt[0] == "const" and isinstance(fmt[1], str):
                     R.check(fmt[1].startswith("<"), key, fi.where(b), "format %r (little-endian by specification)" % fmt[1],
                             "the ToC mask is unpacked with %r: the mask holds the byte-order flag itself and is always little-endian; for big-endian "
